@@ -14,5 +14,9 @@ SPLIT = {"nested_par": [("_fail", "fail")], "nested_inner_catch": [("_catch", "m
          "par_retry": [("_f%d_s%d" % (f, s), "nfail == %d and sib == %d" % (f, s)) for f in (1, 2) for s in (0, 1)],
          "map_items": [("_fail", "failing >= 0 and n >= 1")]}
 scn.register(globals(), {"C06", "C02", "C03", "C09"}, ["par2", "par_catch", "par_retry", "map_items", "par_wait_fail", "par_branch_retry", "par_inner_catch", "nested_par", "nested_inner_catch"], SPLIT)
-for _n in ("nested_inner_catch_catch_task", "nested_inner_catch_retry_task"):
-    globals()[_n]._vf.tiers = ("thorough",)
+
+import s2_more as more
+more.register(globals(), {"C06", "C02", "C03", "C09"}, ["par3_mixed", "map_fail_batches", "map_in_par", "par_in_map", "branch_fail_state", "par_longform"],
+              {"par3_mixed": [("_a", "fa and not fb"), ("_b", "fb and not fa"), ("_ab", "fa and fb")], "map_in_par": [("_k%d_fail" % k, "kind == %d and (fo or fi >= 0)" % k) for k in range(3)],
+               "par_in_map": [("_fail", "failing >= 0")], "branch_fail_state": [("_fail", "x == 1")],
+               "par_longform": [("_fail", "fa or fb")]})
